@@ -120,10 +120,10 @@ def h_expr(o0: int, o1: int, o2: int, o3: int, o4: int, o5: int, o6: int,
     from mwlib.parser import expr as X
 
     n = len(OPS)
-    slots = [root] + [choose(o, n) for o in (o1, o2)] + ([choose(o, n) for o in (o3, o4, o5, o6)] if depth >= 3 else [n - 1] * 4)
     leaves = [v0, v1, v2, v3, v4, v5, v6, v7]
-    for v in leaves:
+    for v in leaves:  # first, so that the discarded branches sit at the top of the path tree and are visited once, not once per operator choice
         assume(0 <= v < 10)  # single-digit literals: rendering a numeral forks once per digit count; larger values arise from the operators
+    slots = [root] + [choose(o, n) for o in (o1, o2)] + ([choose(o, n) for o in (o3, o4, o5, o6)] if depth >= 3 else [n - 1] * 4)
     tree = mktree(slots, leaves, 0, depth, [0])
     want = ref_eval(tree)
     toks, text = [], []
